@@ -16,7 +16,10 @@ EXTENDS Naturals, Sequences, FiniteSets, TLC, Json
 
 Recvs == {"ref", "mut", "own", "pinref", "pinmut"}
 ArgShapes == {"none", "i64", "cstruct", "ref", "mutref", "slice", "mutslice", "str",
-              "opt", "optnpo", "optptr", "optmut", "slice64", "mutslice64", "slicezst", "optstruct", "rawptr", "result", "into", "callback", "iter"}
+              "opt", "optnpo", "optptr", "optmut", "slice64", "mutslice64", "slicezst", "optstruct", "rawptr", "result", "into", "callback", "iter",
+              \* the same documented shapes over an (unwrapped) associated type of the trait, `type Item;`: the vtable is
+              \* generic over it (parameter CGlueAItem) and the shape around it is wrapped like any other
+              "aval", "aref", "aslice", "aopt", "ares"}
 RetShapes == {"unit", "i64", "cstruct", "slice", "mutslice", "str", "opt", "optnpo", "optptr", "refret", "mutrefret", "optstruct",
               "result", "resunit", "resneg", "resio"}
 
@@ -33,6 +36,8 @@ CArg(a) ==
     [] a = "optmut" -> <<"Option<&mutu64>">> [] a = "slice64" -> <<"CSliceRef<u64>">> [] a = "mutslice64" -> <<"CSliceMut<u64>">> [] a = "slicezst" -> <<"CSliceRef<()>">>
     [] a = "optstruct" -> <<"COption<Pt>">> [] a = "rawptr" -> <<"*constu8">>
     [] a = "result" -> <<"CResult<u64,u64>">> [] a = "into" -> <<"u64">>
+    [] a = "aval" -> <<"CGlueAItem">> [] a = "aref" -> <<"&CGlueAItem">> [] a = "aslice" -> <<"CSliceRef<CGlueAItem>">>
+    [] a = "aopt" -> <<"COption<CGlueAItem>">> [] a = "ares" -> <<"CResult<CGlueAItem,u64>">>
     [] a = "callback" -> <<"OpaqueCallback<u64>">> [] OTHER -> <<"CIterator<u64>">>
 (* return type and trailing output parameter *)
 CRet(t, ir) ==
@@ -56,11 +61,13 @@ FfiSafeTypes == {"i64", "i32", "()", "Pt", "&u64", "&mutu64", "CSliceRef<u8>", "
                  "Option<&mutu64>", "CSliceRef<u64>", "CSliceMut<u64>", "CSliceRef<()>", "COption<Pt>", "*constu8",
                  "Option<&u64>", "CResult<u64,u64>", "CResult<u64,()>", "CResult<(),()>", "CResult<u64,NegErr>", "u64",
                  "OpaqueCallback<u64>", "CIterator<u64>", "&mutMaybeUninit<u64>",
+                 \* a type parameter is as C-representable as what it is instantiated with (here: u64)
+                 "CGlueAItem", "&CGlueAItem", "CSliceRef<CGlueAItem>", "COption<CGlueAItem>", "CResult<CGlueAItem,u64>",
                  "&CGlueC", "&mutCGlueC", "CGlueC", "Pin<&CGlueC>", "Pin<&mutCGlueC>"}
 
 Borrowing(t) == t \in {"slice", "str", "optnpo", "mutslice", "refret", "mutrefret"}
 (* argument shapes that carry an (elided) lifetime of their own *)
-ArgBorrows(a) == a \in {"ref", "mutref", "slice", "mutslice", "str", "optnpo", "optmut", "slice64", "mutslice64", "slicezst", "callback", "iter"}
+ArgBorrows(a) == a \in {"ref", "mutref", "slice", "mutslice", "str", "optnpo", "optmut", "slice64", "mutslice64", "slicezst", "callback", "iter", "aref", "aslice"}
 Supported(r, a, t) ==
   /\ (Borrowing(t) => r # "own")               \* nothing to borrow from a consumed receiver
   /\ (t \in {"mutslice", "mutrefret"} => r \in {"mut", "pinmut"})
